@@ -185,7 +185,7 @@ CodePwlAt(pts, s, pg) ==     \* linear interpolation through (x_k, y_k), end seg
 \* The transcription follows the tree under test.  Set a flag to TRUE when the corresponding proposed fix is applied to
 \* the repository (proposed_fixes/C17_1.diff, C17_2.diff, C16_1.diff); the predictions (req.dev, req.lawdiff) then change
 \* and the check reports a stale transcription as a divergence, never as a violation.
-TreeHasC17_1 == FALSE       \* sign applied to the odd-degree coefficient only
+TreeHasC17_1 == TRUE        \* sign applied to the odd-degree coefficient only (repaired in the repository, see known_findings)
 TreeHasC17_2 == FALSE       \* cp0 kept when a polynomial row is rewritten as pwl
 TreeHasC16_1 == FALSE       \* OPF dcline constraint uses the power-flow loss law
 CodeRowP(row, et, anyPwl, p) ==
